@@ -423,7 +423,8 @@ PROPS = {
     },
     "C17": {
         "level": "exploration",
-        "claim": ("Virtual-time topology: a VPN peer P (ipv4-vpn), a VPN peer Q that also negotiates Route Target Constraint, two CE "
+        "claim": ("Virtual-time topology: two VPN peers P and P2 (ipv4-vpn; P2 announces the same (RD, prefix) keys with a longer AS_PATH, "
+                  "route-target lists may repeat a target), a VPN peer Q that also negotiates Route Target Constraint, two CE "
                   "peers attached to VRFs v0 and v1, a third VRF that is added and deleted during the history; VRFs get generated "
                   "overlapping import/export route-target sets over a pool of four targets. Histories of 3-30 operations: VPN "
                   "announcements (re-announcements with a different target set included) and withdrawals by P, CE announcements and "
